@@ -310,6 +310,20 @@ def run(ctx) -> None:
         rep.add("C15.R3", f"{f.qname}:no-path-by-limit-value", not bad, f"{f.module.rel}:{bad[0].lineno if bad else f.lineno}", "the limit is only tested for presence and used to size the limiter" if not bad else f"'{src(bad[0])[:50]}' selects a code path by the value of the limit: the run for that k is not the unlimited run with fewer permits (e.g. a sequential k=1 path where the first failure skips the step's other nodes and their outputs)")
     if n_lim < 3:
         raise AnalysisError(f"only {n_lim} functions taking the limit found")
+    # the shared limiter is a lock and nothing else: it is tested for presence and entered/acquired — no attribute of
+    # it is ever read (its free-permit counter is a momentary value, not the configured limit k)
+    n_use = 0
+    bad_use = None
+    for f in db.funcs_in("runners"):
+        lim_ = _limiter_locals(db, f)
+        getters = [c for c in db.calls_in(f) if call_names(db, c, f) & LIMITER_GETTERS]
+        if not lim_ and not getters:
+            continue
+        n_use += 1
+        for x in walk_local(f.node):
+            if isinstance(x, ast.Attribute) and x.attr not in ("acquire", "release", "__aenter__", "__aexit__", "locked") and (isinstance(x.value, ast.Name) and x.value.id in lim_ or isinstance(x.value, ast.Call) and call_names(db, x.value, f) & LIMITER_GETTERS):
+                bad_use = (f, x)
+    rep.add("C15.R3", "runners:limiter-used-only-as-lock", bad_use is None and n_use >= 3, f"{bad_use[0].module.rel}:{bad_use[1].lineno}" if bad_use else "src/hypergraph/runners", f"{n_use} function(s) obtain the shared limiter: it is only tested for presence and acquired" if bad_use is None else f"'{src(bad_use[1])}' in {bad_use[0].name} reads the limiter's internal state: the number of permits free at that instant is not the limit k — with every permit held it is 0, so a nested map sized by it starts no worker and returns an empty result where the unlimited run returns every item")
 
     # ---- R6 ---------------------------------------------------------------------
     from .c10 import check_async_map_order
